@@ -31,6 +31,10 @@ def is_derived(f):
             or "as std::clone::Clone>" in f or "as std::convert::From<" in f and "::from" in f and "AuxvDumpInfo" not in f)
 
 
+EMPTY_IS_POSSIBLE = True
+EMPTINESS_SENSITIVE = {"first", "last", "first_mut", "last_mut", "get", "get_mut", "pop", "next", "next_back", "max", "min", "max_by_key", "min_by_key", "max_by", "min_by", "split_first", "split_last", "nth", "find", "position", "peek", "reduce", "checked_div", "checked_rem", "front", "back", "pop_front", "pop_back"}
+
+
 def ledger(ctx, taint, rule, scope=None):
     sinks = T.collect_sinks(taint, skip_fn=is_derived)
     if scope is not None:
@@ -58,6 +62,27 @@ def ledger(ctx, taint, rule, scope=None):
         if s.kind.startswith("call:") and s.kind.split(":")[1] in T.CONST_ARG_OK and len(s.ops) > 1 and is_const(core(s.ops[1])) and core(s.ops[1])[1] > 0:
             stats["const"] += 1
             continue
+        # a divisor need not be hostile to be zero: counts and lengths (threads left, entries found) are zero in unusual targets, so a
+        # non-constant divisor is a sink whatever its provenance; it is discharged by a dominating `!= 0` / `> 0` guard
+        if s.kind in ("DivisionByZero", "RemainderByZero") and not all(is_const(core(e)) for e in s.ops):
+            ops_t = [True for _ in s.ops]
+            why.append("a count/length can be zero")
+        if EMPTY_IS_POSSIBLE and s.kind == "BoundsCheck" and not all(is_const(core(e)) for e in s.ops) and not any(ops_t):
+            ops_t = [True for _ in s.ops]
+            why.append("a collection can be empty/shorter")
+        if EMPTY_IS_POSSIBLE and s.kind in ("call:unwrap", "call:expect") and not any(ops_t) and s.ops:
+            x = strip(s.ops[0])
+            if x[0] == "call" and x[1].split("::")[-1] in EMPTINESS_SENSITIVE:
+                # shape lemma: first/last/get(i) of a chunk of statically known length k > i is Some
+                n_static = T._static_len(x[2][0]) if x[2] else None
+                idx = 0
+                if x[1].split("::")[-1] in ("get", "get_mut") and len(x[2]) > 1 and is_const(core(x[2][1])):
+                    idx = core(x[2][1])[1]
+                if n_static is not None and x[1].split("::")[-1] in ("first", "last", "first_mut", "last_mut", "get", "get_mut", "split_first", "split_last") and idx < n_static:
+                    pass
+                else:
+                    ops_t = [True] + [False] * (len(s.ops) - 1)
+                    why.append("a collection can be empty")
         if not any(ops_t):
             stats["untainted"] += 1
             ctx.ok(rule, key, s.where, "%s: operands are not target/caller controlled" % s.desc[:160], nontrivial=False)
